@@ -442,11 +442,16 @@ def replay_case(mod, check_name, case, known=()):
 # ---------------------------------------------------------------------------
 
 def load_known(prop):
+    items = []
     path = os.path.join(ROOT, 'known_findings.json')
-    if not os.path.exists(path):
-        return []
-    with open(path) as f:
-        items = json.load(f)
+    if os.path.exists(path):
+        with open(path) as f:
+            items = json.load(f)
+    # per-property working files (merged into known_findings.json by the integrator)
+    wpath = os.path.join(ROOT, 'findings', f'{prop}.json')
+    if os.path.exists(wpath):
+        with open(wpath) as f:
+            items = items + json.load(f)
     return [k for k in items if k.get('property') == prop]
 
 
@@ -638,6 +643,15 @@ def _main(a, prop, seed, t0):
         print(f'VIOLATION property={prop} replay={os.path.relpath(path, ROOT)}')
         nviol += 1
 
+    if a.collect and violations:
+        groups = {}
+        for sig, check, case, msg in violations:
+            parts = sig.split('|')
+            key = (parts[1] if len(parts) > 1 else '?') + ' :: ' + (parts[-1] if len(parts) > 2 else '?')
+            groups.setdefault(key, []).append(sig)
+        print('--- collect summary (site :: kind -> number of distinct regions) ---')
+        for key, sigs in sorted(groups.items(), key=lambda kv: -len(kv[1])):
+            print(f'{len(sigs):4d}  {key}')
     wall_s = time.time() - t0
     if not a.no_evidence:
         ev = {
